@@ -4,4 +4,4 @@ Extraction Language OCaml.
 Extraction "c10_model.ml"
   prelude_byte_of_N prelude_N_of_byte prelude_Z_of_N prelude_Z_opp prelude_nat_of_N prelude_N_of_nat
   parse_prefix fresh_client request run drain acceptable writer_write new_writer
-  fresh_server srv_run handle_request.
+  fresh_server srv_run handle_request tsrv_fresh tsrv_trace.
